@@ -266,6 +266,49 @@ def o_fp_indep_q(case):
     return None
 
 
+@oracle
+def o_input_types(case):
+    """the fields are a function of the VALUES of (surface flux, background): the same whole numbers delivered as an integer array, float32,
+    a Fortran-ordered / transposed-view / strided / read-only array, and a background given as a Python int, numpy integer, float32 or 0-d
+    array give the result of the float64 C-contiguous request"""
+    from bldfm.solver import steady_state_transport_solver
+    base = base_of(case)
+    q = np.asarray(base["q"], dtype=float)
+    bg = float(base.get("bg", 0.0))
+    ref = solve3(base)
+    kw = dict(z=np.asarray(base["z"], dtype=float), profiles=tuple(np.asarray(p_, dtype=float) for p_ in base["profiles"]),
+              domain=tuple(base["domain"]), levels=base["levels"], modes=tuple(base["modes"]), meas_pt=tuple(base["meas_pt"]),
+              footprint=base["footprint"], analytic=base["analytic"], halo=base.get("halo"), precision=base["precision"])
+    big = np.zeros((2 * q.shape[0], 3 * q.shape[1]))
+    big[::2, ::3] = q
+    ro = q.copy()
+    ro.setflags(write=False)
+    qs = dict(int64=q.astype(np.int64), int32=q.astype(np.int32), float32=q.astype(np.float32), fortran=np.asfortranarray(q),
+              transposed_view=np.ascontiguousarray(q.T).T, strided=big[::2, ::3], readonly=ro)
+    bgs = dict(pyint=int(bg), npint64=np.int64(bg), npint32=np.int32(bg), float32=np.float32(bg), zerod=np.array(bg), zerod_int=np.array(int(bg)))
+    tol = 1e-11 if base["precision"] == "double" else 3e-5
+    fl = field_floor(base)
+    variants = [("q:" + k, v, bg) for k, v in qs.items()] + [("bg:" + k, q, v) for k, v in bgs.items()] + [("q:int64+bg:pyint", qs["int64"], int(bg))]
+    for nm, qv, bv in variants:
+        try:
+            grid, conc, flx = steady_state_transport_solver(qv, srf_bg_conc=bv, **kw)
+        except Exception:  # noqa: BLE001
+            # an input type the code REJECTS is not a wrong result (on the pinned tree a float32 source makes the compiled sweep raise a numba
+            # TypingError in numerical dispersion mode: complex64 spectrum against complex128 work arrays - recorded in DESIGN.md as an
+            # observation outside the property); the clause is about the results that ARE returned
+            continue
+        nlv = ref[0].shape[0]
+        got = (np.asarray(conc, dtype=float).reshape(ref[0].shape), np.asarray(flx, dtype=float).reshape(ref[1].shape))
+        for name, k in (("conc", 0), ("flx", 1)):
+            e = relerr(got[k], ref[k], scale=fl[k])
+            # a float32 array is transformed in single precision by the FFT layer: rounding at the level of that storage type is not a
+            # different function of the values (measured on the pinned tree: 6e-8)
+            if not e <= (max(tol, 3e-5) if "float32" in nm else tol):
+                return fail("C04/input-type/%s" % name, "the %s of the request with %s differs from that of the same numbers given as float64" % (name, nm),
+                            None, "equal", e, tol)
+    return None
+
+
 def run_C04(rng, tier, deep):
     st = new_stats()
     n = budget(tier, deep, 24, 240)
@@ -292,9 +335,19 @@ def run_C04(rng, tier, deep):
         c["bg"] = float(rng.choice([0.0, rng.normal()]))
         c["par"] = dict(s=float(10.0 ** rng.uniform(-12, 6)))
         run_oracle(st, o_homogeneity, c)
+    for _ in range(budget(tier, deep, 6, 40)):
+        c = random_case(rng)
+        ny, nx = c["q"].shape
+        c["q"] = rng.integers(-3, 5, size=(ny, nx)).astype(float)        # whole numbers: exactly representable in every dtype tried
+        c["bg"] = float(rng.integers(-4, 9))
+        if c["analytic"] and rng.random() < 0.5:
+            c["analytic"] = False
+            c["profiles"] = power_profiles(rng, len(c["z"]), c["z"])
+            limit_growth(c)
+        run_oracle(st, o_input_types, c)
     return finish(st, "random structured solver requests (sizes 2..8, halo none/zero/commensurate/incommensurate, levels scalar/asc/shuffled/repeated/top, "
                   "uniform/varying profiles, both precisions, both modes, analytic/numeric); distinct = distinct canonical request; "
-                  "oracle: three real solves per linearity case with sign-changing sources; background offset also through a shared result cache (footprint mode)", deep, TOL)
+                  "oracle: three real solves per linearity case with sign-changing sources; background offset also through a shared result cache (footprint mode); whole-number sources / backgrounds delivered in integer / float32 dtypes, Fortran / transposed / strided / read-only layouts, Python and numpy scalars", deep, TOL)
 
 
 # ------------------------------------------------------------ shared helpers
@@ -348,6 +401,18 @@ def o_reciprocity(case):
         sc = float(np.sum(q * (fp[0][k] - bg)))
         if not np.any(q):
             return None   # an identically zero source: both sides vanish
+        # the package's own helper for this sum, with the source as its caller may hold it (C order, Fortran order, a transposed view of
+        # data stored [x, y], a strided view, integer-typed whole numbers): the sum pairs the cells by INDEX
+        from bldfm.utils import point_measurement
+        big = np.zeros((2 * ny, 3 * nx))
+        big[::2, ::3] = q
+        for lay, qv in (("C", q), ("fortran", np.asfortranarray(q)), ("transposed-view", np.ascontiguousarray(q.T).T), ("strided", big[::2, ::3])):
+            for nm, fld, ref in (("footprint", np.ascontiguousarray(fp[1][k]), sf), ("concentration", np.ascontiguousarray(fp[0][k] - bg), sc)):
+                for order in ((qv, fld), (fld, qv)):
+                    pm = float(point_measurement(*order))
+                    den = max(float(np.sum(np.abs(q * fld))), 1e-300)
+                    if not abs(pm - ref) / den <= 1e-12:
+                        return fail("C02/point-measurement", "point_measurement(source [%s layout], %s) is not the cell-by-cell sum" % (lay, nm), None, ref, pm, 1e-12)
         scale_f = max(float(np.max(np.abs(disp[1][k]))), 1e-300)
         scale_c = max(float(np.max(np.abs(disp[0][k] - bg))), abs(bg) * 1e-2, 1e-300)
         ef = abs(sf - f_pt) / scale_f
@@ -991,7 +1056,13 @@ def o_levels(case):
     lv = base["levels"]
     lvl = [int(lv)] if np.ndim(lv) == 0 else [int(l) for l in lv]
     form = case["par"]["form"]
-    arg = lv if np.ndim(lv) == 0 else (np.array(lvl) if form == "array" else (tuple(lvl) if form == "tuple" else list(lvl)))
+    if np.ndim(lv) == 0:
+        # a single level: Python int, numpy integer scalars, a 0-d array
+        arg = {"npint64": np.int64, "npint32": np.int32, "zerod": np.array, "intp": np.intp}.get(form, int)(lvl[0])
+    else:
+        arg = {"array": lambda v: np.array(v), "array32": lambda v: np.array(v, dtype=np.int32), "nplist": lambda v: [np.int64(x) for x in v],
+               "arrayu8": lambda v: np.array(v, dtype=np.uint8), "tuple": tuple}.get(form, list)(lvl)
+    base = dict(base, _cont=case["par"].get("cont"))
     z = np.asarray(base["z"], dtype=float)
     grid, conc, flx = real_solve(dict(base, levels=arg))
     ny, nx = np.asarray(base["q"]).shape
@@ -1051,11 +1122,12 @@ def run_C10(rng, tier, deep):
         c["levels"] = lv
         if c["analytic"]:
             c["profiles"] = uniform_profiles(rng, nz)
-        c["par"] = dict(form=str(rng.choice(["list", "array"])), full=bool(rng.random() < 0.3))
+        forms = ["pyint", "npint64", "npint32", "zerod", "intp"] if kind == "scalar" else ["list", "array", "array32", "nplist", "arrayu8"]
+        c["par"] = dict(form=str(rng.choice(forms)), full=bool(rng.random() < 0.3), cont=str(rng.choice(["tuple", "list", "array"])))
         st["branches"]["levels=%s" % kind] = st["branches"].get("levels=%s" % kind, 0) + 1
         run_oracle(st, o_levels, c)
-    return finish(st, "level selections ascending / descending / shuffled / repeated / with top node / scalar / full column, given as list, tuple or "
-                  "ndarray, numeric and analytic, both modes and precisions; oracle: each slice vs the single-level request and the full-column request, "
+    return finish(st, "level selections ascending / descending / shuffled / repeated / with top node / scalar / full column, given as list, list of numpy integers, int64 / int32 / uint8 ndarray, Python int, numpy integer "
+                  "scalar or 0-d array; domain / modes / measurement point as tuple, list or ndarray; numeric and analytic, both modes and precisions; oracle: each slice vs the single-level request and the full-column request, "
                   "height label exact", deep, TOL)
 
 
